@@ -86,20 +86,43 @@ SeenOf(v) == IF Truthy(v) THEN v ELSE 0                  \* global_ctx.py: "if a
 \* the documentation does not say whether the name is defined
 SeenOk(v) == IF Truthy(v) THEN {v} ELSE {0, v}
 
+\* What the app's CODE does with the object it finds as pyscript.app_config - the WRITE KIND of a source text (field wr of a
+\* file; only an app's main file can see the name): 0 = only reads it; at load time 1 = adds a top-level key / element
+\* (setdefault / append), 2 = overwrites a top-level value, 3 = removes a top-level key / element (pop); 4, 5, 6 = the same
+\* three, but later, from the trigger the context answers the "ping" event with (idempotent: written once or many times);
+\* 7 / 8 = adds a key to a NESTED value (the first mapping inside a list of mappings) at load / from the trigger.
+\* The values that arise, as further codes:  7 = {v: 1, w: 1}   8 = {v: 2, w: 1}   9 = [{v: 1}, 1]   10 = {v: 9}   11 = [9];
+\* removing the only key / element gives {} = 2 / [] = 3;  12 = [{v: 1, w: 1}] (nested).
+WrDomain == 0..8
+ValDomain == 0..12
+WrOp(wr)   == CASE wr \in {1, 4} -> 1 [] wr \in {2, 5} -> 2 [] wr \in {3, 6} -> 3 [] wr \in {7, 8} -> 4 [] OTHER -> 0
+WrLate(wr) == wr \in {4, 5, 6, 8}
+MainFile(p) == p \in {"apps/p/__init__.py", "apps/p.py"}
+WriteTo(v, k) == CASE k = 1 -> (CASE v = 4 -> 7 [] v = 5 -> 8 [] v = 6 -> 9 [] OTHER -> v)
+                   [] k = 2 -> (CASE v \in {4, 5} -> 10 [] v = 6 -> 11 [] OTHER -> v)
+                   [] k = 3 -> (CASE v \in {4, 5} -> 2 [] v = 6 -> 3 [] OTHER -> v)
+                   [] k = 4 -> (CASE v = 6 -> 12 [] OTHER -> v)                \* {v: 1} / {v: 2} have no nested value: nothing written
+                   [] OTHER -> v
+\* the script's own variable pyscript.app_config NOW, given what it saw when it was executed (0 = name not defined: nothing to
+\* write to), the write kind of its source and whether its trigger has answered a ping since
+NowOf(seen, wr, pinged) == IF seen = 0 \/ wr = 0 THEN seen
+                           ELSE IF WrLate(wr) /\ ~pinged THEN seen ELSE WriteTo(seen, WrOp(wr))
+
 \* a file: ex (exists on disk), hash (its own name starts with '#'), gen (source generation, identifies the
 \* text), mtime, imps (set of import targets in its text).  H = set of directories renamed to '#name'.
-Absent == [ex |-> FALSE, hash |-> FALSE, gen |-> 0, mtime |-> 0, imps |-> {}]
+Absent == [ex |-> FALSE, hash |-> FALSE, gen |-> 0, mtime |-> 0, imps |-> {}, wr |-> 0]
 Vis(F, H, p) == F[p].ex /\ ~F[p].hash /\ DirOf(p) \notin H
 \* a loaded context
-Unl == [path |-> "", gen |-> 0, mtime |-> 0, cfg |-> 0, seen |-> 0, imports |-> {}, inst |-> 0, started |-> FALSE]
+\* (wr = write kind of the source it runs, now = the value of its variable pyscript.app_config as observed after the ping)
+Unl == [path |-> "", gen |-> 0, mtime |-> 0, cfg |-> 0, seen |-> 0, wr |-> 0, now |-> 0, imports |-> {}, inst |-> 0, started |-> FALSE]
 NoCtx == [c \in CtxNames |-> Unl]
 LoadedIn(C) == { c \in CtxNames : C[c] # Unl }
 
 \* edits; act carries every parameter (chosen by the state machine or read from a recording)
 ApplyFiles(F, act) ==
-  CASE act.a = "modify" -> [F EXCEPT ![act.p] = [@ EXCEPT !.gen = act.gen, !.mtime = act.mtime, !.imps = act.imps]]
+  CASE act.a = "modify" -> [F EXCEPT ![act.p] = [@ EXCEPT !.gen = act.gen, !.mtime = act.mtime, !.imps = act.imps, !.wr = act.wr]]
     [] act.a = "touch"  -> [F EXCEPT ![act.p].mtime = act.mtime]
-    [] act.a = "create" -> [F EXCEPT ![act.p] = [ex |-> TRUE, hash |-> FALSE, gen |-> act.gen, mtime |-> act.mtime, imps |-> act.imps]]
+    [] act.a = "create" -> [F EXCEPT ![act.p] = [ex |-> TRUE, hash |-> FALSE, gen |-> act.gen, mtime |-> act.mtime, imps |-> act.imps, wr |-> act.wr]]
     [] act.a = "delete" -> [F EXCEPT ![act.p] = Absent]
     [] act.a = "hash"   -> [F EXCEPT ![act.p].hash = ~@]                         \* rename to / from '#name' (mtime kept)
     [] OTHER -> F
@@ -142,6 +165,7 @@ LoadFile(F, H, S, p, cfgv) ==
       r  == DoImports(F, H, S1, F[p].imps, 1, {})
   IN IF ~r.ok THEN r.S
      ELSE [ctx |-> [r.S.ctx EXCEPT ![c] = [path |-> p, gen |-> F[p].gen, mtime |-> F[p].mtime, cfg |-> cfgv, seen |-> SeenOf(cfgv),
+                                            wr |-> F[p].wr, now |-> NowOf(SeenOf(cfgv), F[p].wr, FALSE),
                                             imports |-> r.imports, inst |-> r.S.n + 1, started |-> FALSE]],
            n |-> r.S.n + 1, log |-> Append(r.S.log, c)]
 
@@ -158,8 +182,13 @@ LoadAll(F, H, d2f, S, force, i) ==
        IF c \in force THEN LoadAll(F, H, d2f, LoadFile(F, H, S, d2f[c].path, d2f[c].cfg), force, i + 1)
        ELSE LoadAll(F, H, d2f, S, force, i + 1)
 
-AllFlags  == {"del-no-propagate", "named-no-start", "cfg-value-only"}    \* deviations of the originally pinned tree
-CodeFlags == {"cfg-value-only"}                          \* deviations of the mechanism of the current tree (the others: repaired)
+\*   "cfg-shared" (never true of the pinned tree; the named way the "copy" of global_ctx.py can be lost): the value the
+\*   context carries for the change detection IS the object handed to the script - what the script writes into
+\*   pyscript.app_config is taken for a change of the app's configuration by every later default reload
+\*   "cfg-shallow" (the current tree): the script is handed app_config.copy() - a SHALLOW copy: nested values are still shared
+\*   with the value the context carries, a write into a nested value is taken for a change of the app's configuration
+AllFlags  == {"del-no-propagate", "named-no-start", "cfg-value-only", "cfg-shared", "cfg-shallow"}    \* deviations of the originally pinned tree + named hypothetical ones
+CodeFlags == {"cfg-value-only", "cfg-shallow"}                          \* deviations of the mechanism of the current tree (the others: repaired)
 \* start_global_contexts(arg): every context for "" / "*", else the named one and those whose name starts with arg + "."
 StartMatch(arg, c) == arg \in {"", "*"} \/ c = arg \/ (arg = "apps.p" /\ c = "apps.p.h") \/ (arg = "modules.m" /\ c = "modules.m.u")
 
@@ -195,7 +224,13 @@ Mechanism(F, H, G, C, n, arg, fl) ==
       S2     == IF arg \notin {"", "*"} /\ ~known THEN [ctx |-> C, n |-> n, log |-> <<>>]        \* "no global context to reload"
                 ELSE LoadAll(F, H, d2f, [ctx |-> C1, n |-> n, log |-> <<>>], toLoad, 1)
       startAll == "named-no-start" \notin fl
-      C3     == OverCtx([c \in CtxNames |-> IF S2.ctx[c] # Unl /\ (startAll \/ StartMatch(arg, c)) THEN [S2.ctx[c] EXCEPT !.started = TRUE] ELSE S2.ctx[c]])
+      \* ... and the state as it is observed after the next "ping": the started contexts have answered it (late writers have written)
+      C3     == OverCtx([c \in CtxNames |->
+                  LET x  == S2.ctx[c]
+                      st == x.started \/ startAll \/ StartMatch(arg, c)
+                      nw == NowOf(x.seen, x.wr, st)
+                  IN IF x = Unl THEN Unl
+                     ELSE [x EXCEPT !.started = st, !.now = nw, !.cfg = IF x.seen # 0 /\ ("cfg-shared" \in fl \/ ("cfg-shallow" \in fl /\ WrOp(x.wr) = 4)) THEN nw ELSE @]])
   IN [ctx |-> C3, n |-> S2.n, log |-> S2.log]
 
 \* ------------------------------------------------------------------------- 3. the statement
@@ -235,7 +270,7 @@ MayLoaded(W) == LET r == AutoFiles(W) IN Closure(W, r, r)
 
 Current(W, x, c) ==                    \* context record x runs the current source of c under the documented name
   LET p == W.doc[c] IN p # "" /\ x.path = p /\ x.gen = W.F[p].gen /\ x.mtime = W.F[p].mtime /\ x.cfg = DocCfg(W.G, c)
-                /\ x.seen \in SeenOk(DocCfg(W.G, c))
+                /\ x.seen \in SeenOk(DocCfg(W.G, c)) /\ x.wr = W.F[p].wr
 
 \* S1 (default and "*" reload): clauses, first failing one is reported
 S1Clause(W, C2) ==
@@ -262,7 +297,9 @@ Considered(C, W, arg, exists) ==         \* exists: some file would give a conte
   ELSE IF arg = "*" THEN LoadedIn(C)
   ELSE IF arg \in LoadedIn(C) \/ exists THEN {arg} ELSE {}
 Discarded(C, C2) == { c \in LoadedIn(C) : C2[c] = Unl \/ C2[c].inst # C[c].inst }
-SameButStart(x, y) == [x EXCEPT !.started = TRUE] = [y EXCEPT !.started = TRUE]
+\* (a context that is only started now answers its first ping: its late write happens; everything else is the same record)
+Started(x) == [x EXCEPT !.started = TRUE, !.now = NowOf(x.seen, x.wr, TRUE)]
+SameButStart(x, y) == Started(x) = Started(y)
 
 \* executing p given surviving contexts K succeeds (lookup-before-load: a loaded module satisfies the import)
 RECURSIVE OkRel(_, _, _)
